@@ -7,6 +7,7 @@ import (
 	"os/exec"
 	"path/filepath"
 	"regexp"
+	"sort"
 	"strings"
 	"sync"
 
@@ -126,6 +127,39 @@ func C07(c *ev.Ctx) {
 		m.pkgs = append(m.pkgs, name)
 		infos = append(infos, info)
 	}
+	// one package with MANY untranslatable declarations followed by translatable ones (state that a failing
+	// declaration leaves behind must not reach the later ones)
+	mustTranslate := map[string][]string{}
+	{
+		var sb strings.Builder
+		sb.WriteString("package gen\n\n")
+		for k := 0; k < 120; k++ {
+			// the unsupported construct sits deep inside an expression (and, for every fourth one, at statement level)
+			inner := []string{"(x &^ 1)", "(-x)", "(+x)", "uint64(len(make([]uint64, 3)[0:1:2]))"}[k%4]
+			e := inner
+			for dpt := 0; dpt < 6+k%5; dpt++ {
+				e = fmt.Sprintf("((%s + %d) * %d)", e, dpt+1, dpt+2)
+			}
+			if k%7 == 3 {
+				fmt.Fprintf(&sb, "func bad%d(x uint64) uint64 {\n\tdefer func() {}()\n\treturn %s\n}\n\n", k, e)
+			} else {
+				fmt.Fprintf(&sb, "func bad%d(x uint64) uint64 {\n\treturn idz(idz(%s) + 1)\n}\n\n", k, e)
+			}
+		}
+		sb.WriteString("func idz(x uint64) uint64 {\n\treturn x\n}\n\n")
+		var good []string
+		for k := 0; k < 12; k++ {
+			fmt.Fprintf(&sb, "func good%d(x uint64) uint64 {\n\tvar t uint64 = (x + %d) * 3\n\tif t > 7 {\n\t\tt = t - ((x ^ 5) | 1)\n\t}\n\treturn t\n}\n\n", k, k)
+			good = append(good, fmt.Sprintf("good%d", k))
+		}
+		name := "zmany"
+		d := filepath.Join(m.dir, name)
+		_ = os.MkdirAll(d, 0755)
+		_ = os.WriteFile(filepath.Join(d, "gen.go"), []byte(sb.String()), 0644)
+		m.pkgs = append(m.pkgs, name)
+		infos = append(infos, pinfo{name: name, src: sb.String(), keys: map[string]string{}})
+		mustTranslate[name] = good
+	}
 	// packages that do not compile are generator problems
 	if _, broken, err := buildOnly(m); err != nil {
 		c.Inconclusive("%v", err)
@@ -137,8 +171,24 @@ func C07(c *ev.Ctx) {
 		return
 	}
 	// (1) command line: exit status and absence of a crash
+	isCrash := func(g gooseOut) bool {
+		return g.exit != 0 && g.exit != 1 || strings.Contains(g.stderr, "goroutine ") || strings.Contains(g.stderr, "panic:") || strings.Contains(g.stderr, "fatal error:")
+	}
 	gout := m.runGoose(c, "-ignore-errors")
-	crashed := gout.exit != 0 && gout.exit != 1 || strings.Contains(gout.stderr, "goroutine ") || strings.Contains(gout.stderr, "panic:")
+	crashed := isCrash(gout)
+	// all packages are translated by one process (one worker goroutine per package): repeat, with few and many processors
+	for rep := 0; rep < 4 && !crashed; rep++ {
+		os.Setenv("GOMAXPROCS", []string{"16", "2", "8", "4"}[rep])
+		g2 := m.runGoose(c, "-ignore-errors")
+		os.Unsetenv("GOMAXPROCS")
+		if isCrash(g2) {
+			gout, crashed = g2, true
+		} else if sortedLines(g2.stderr) != sortedLines(gout.stderr) {
+			c.Violation("c07.errors-differ-between-runs", "two invocations of goose on the same packages report different errors (order aside): the reporter is not a function of the package\n--- first\n"+firstLines(diffLines(gout.stderr, g2.stderr), 12), map[string]string{"first.txt": gout.stderr, "second.txt": g2.stderr})
+			break
+		}
+	}
+	reproducedAlone := false
 	if crashed {
 		// find the offending package(s) one by one
 		for _, info := range infos {
@@ -153,7 +203,11 @@ func C07(c *ev.Ctx) {
 				}
 				c.Report(key, fmt.Sprintf("goose aborts on package %s (exit %d) instead of reporting structured errors; construct: %s\n%s", info.name, g1.exit, culprit, firstLines(g1.stderr, 8)),
 					map[string]string{"gen.go": info.src, "stderr.txt": g1.stderr})
+				reproducedAlone = true
 			}
+		}
+		if !reproducedAlone {
+			c.Violation("c07.crash.co-translation", fmt.Sprintf("goose aborts (exit %d) when the %d packages are translated by one invocation, although none of them makes it abort alone: the workers disturb each other\n%s", gout.exit, len(infos), firstLines(gout.stderr, 14)), map[string]string{"stderr.txt": gout.stderr})
 		}
 	}
 	// (2) library: structured, located errors; every declaration either reported or emitted
@@ -220,6 +274,13 @@ func C07(c *ev.Ctx) {
 		}
 		if res.nonConversion != "" {
 			c.Violation("c07.error-type", fmt.Sprintf("package %s: an error that is not a ConversionError: %s", info.name, res.nonConversion), map[string]string{"gen.go": info.src})
+		}
+		for _, g := range mustTranslate[info.name] {
+			if !defined[g] {
+				c.Violation("c07.translatable-not-translated", fmt.Sprintf("package %s: declaration %s is in the subset (it translates when it stands alone) but was not translated after %d untranslatable declarations of the same package: an error in one declaration must not stop the others", info.name, g, 120),
+					map[string]string{"gen.go": info.src, "emitted.v": res.text})
+				break
+			}
 		}
 		for _, d := range ds {
 			ndecls++
@@ -347,4 +408,34 @@ func buildOnly(m *genModule) (map[string]bool, map[string]string, error) {
 		}
 	}
 	return nil, broken, nil
+}
+
+func sortedLines(t string) string {
+	ls := strings.Split(t, "\n")
+	sort.Strings(ls)
+	return strings.Join(ls, "\n")
+}
+
+// diffLines lists lines that occur in only one of the two texts.
+func diffLines(a, b string) string {
+	ca, cb := map[string]int{}, map[string]int{}
+	for _, l := range strings.Split(a, "\n") {
+		ca[l]++
+	}
+	for _, l := range strings.Split(b, "\n") {
+		cb[l]++
+	}
+	var out []string
+	for l, n := range ca {
+		if cb[l] != n {
+			out = append(out, "- "+l)
+		}
+	}
+	for l, n := range cb {
+		if ca[l] != n {
+			out = append(out, "+ "+l)
+		}
+	}
+	sort.Strings(out)
+	return strings.Join(out, "\n")
 }
